@@ -2,3 +2,5 @@
 From QuillGen Require SrcFacts.
 Lemma src_be_pop_before_flag : SrcFacts.be_pop_before_flag = true.
 Proof. vm_compute. reflexivity. Qed.
+Lemma src_be_flush_event_unconditional : SrcFacts.be_flush_event_unconditional = true.
+Proof. vm_compute. reflexivity. Qed.
